@@ -1225,9 +1225,10 @@ def check_fit(case, rec):
         c0 = _cost(case["loss"], (_curve(case, start_vals, start_anis, x) - y) / sig)
         rec.label("cost_checked")
         if np.isfinite(c0):
-            rec.discrepancy("cost_increase", max(c1 - c0, 0.0), 1e-9 * c0 + 1e-300)
+            tol_cost = 1e-9 * c0 + 1e-16 * _cost("linear", y / sig)  # (1e-8 relative residuals)^2: rounding of the curve
+            rec.discrepancy("cost_increase", max(c1 - c0, 0.0), tol_cost)
             require(
-                c1 <= c0 * (1 + 1e-9) + 1e-16 * _cost("linear", y / sig),  # (1e-8 relative residuals)^2: rounding of the curve
+                c1 <= c0 + tol_cost,
                 f"fit result is worse than its documented start: cost {c1:.6g} > {c0:.6g} ({case['loss']} loss, weighted)",
                 dict(tags, kind="cost_increase"),
             )
@@ -1565,7 +1566,7 @@ SUBS = [
     Sub("recover_iso", _g("iso", "recover"), check_fit, quick=1200, thorough=24000, shards_quick=4, shards_thorough=6, shrink_quick=False),
     Sub("recover_dir", _g("dir", "recover"), check_fit, quick=600, thorough=12000, shards_quick=3, shards_thorough=4, shrink_quick=False),
     Sub("recover_latlon", _g("latlon", "recover"), check_fit, quick=400, thorough=6000, shards_quick=2, shards_thorough=2, shrink_quick=False),
-    Sub("constrain_iso", _g("iso", "constrain"), check_fit, quick=900, thorough=12000, shards_quick=3, shards_thorough=2, shrink_quick=False),
-    Sub("constrain_dir", _g("dir", "constrain"), check_fit, quick=500, thorough=5000, shards_quick=2, shards_thorough=1, shrink_quick=False),
+    Sub("constrain_iso", _g("iso", "constrain"), check_fit, quick=900, thorough=10000, shards_quick=3, shards_thorough=2, shrink_quick=False),
+    Sub("constrain_dir", _g("dir", "constrain"), check_fit, quick=500, thorough=4000, shards_quick=2, shards_thorough=1, shrink_quick=False),
     Sub("errors", gen_errors, check_errors, quick=300, thorough=3000, shards_quick=1, shards_thorough=1),
 ]
